@@ -47,6 +47,7 @@ register_class(
     {"done": BOOL, "must_cancel": BOOL, "fut_waiter": RefT("Future"), "started": BOOL, "cancelling": INT, "ncancel": INT, "nuncancel": INT, "pending_cancel": BOOL},
     kind="env",
 )
+register_class("Exc", {"kind": INT, "tagged": BOOL}, kind="env")  # exception objects that live in the heap (lists, futures)
 register_class("Handle", {"cancelled": BOOL, "when": REAL, "cb": INT, "arg": INT}, kind="env")
 register_class("Loop", {"time": REAL}, kind="env")
 
@@ -107,6 +108,49 @@ def exc_getattr(ip, exc, attr):
     if r is not NotImplemented:
         return r
     raise Unsupported(f"exception attribute {attr}")
+
+
+def kind_of_pycls(pycls):
+    import asyncio as _a
+
+    if issubclass(pycls, _a.CancelledError):
+        return I.kind_id("CancelledError")
+    if issubclass(pycls, BaseExceptionGroup):
+        return I.kind_id("BaseExceptionGroup")
+    if issubclass(pycls, KeyboardInterrupt):
+        return I.kind_id("KeyboardInterrupt")
+    if issubclass(pycls, Exception):
+        return I.kind_id("Exception")
+    return I.kind_id("BaseException")
+
+
+def exc_ref(ip, e):
+    """the heap identity of an exception object (assigned on first use; its class kind and AnyIO tag are recorded)"""
+    if getattr(e, "ref", None) is None:
+        st = ip.st
+        r = st.alloc("Exc")  # a new exception object: distinct from every exception already in the heap
+        st.put("Exc", "kind", r, e.kind if e.pycls is None else z3.IntVal(kind_of_pycls(e.pycls)))
+        tag = e.tag if e.tag is not None else z3.BoolVal(False)
+        st.put("Exc", "tagged", r, tag if not isinstance(tag, bool) else z3.BoolVal(tag))
+        e.ref = r
+    return e.ref
+
+
+def exc_from_ref(ip, t):
+    """an exception object read back from the heap: only its class kind and its AnyIO tag are known"""
+    st = ip.st
+    k = st.get("Exc", "kind", t)
+    st.assume(z3.And(k >= 0, k < len(I.SYM_KINDS)))
+    e = ExcVal(None, (), kind=k, tag=st.get("Exc", "tagged", t))
+    st.assume(z3.Implies(e.tag, k == I.kind_id("CancelledError")))
+    e.ref = t
+    return e
+
+
+def b_type(ip, x):
+    if isinstance(x, ExcVal):
+        return type_of_exc(ip, x)
+    raise Unsupported("type() of a non-exception")
 
 
 def type_of_exc(ip, exc):
@@ -1138,6 +1182,7 @@ GLOBALS = {
     "current_task": Builtin("current_task", b_current_task),
     "deque": Builtin("deque", b_deque),
     "list": Builtin("list", b_list),
+    "type": Builtin("type", b_type),
     "bytes": Builtin("bytes", b_bytes),
     "bytearray": Builtin("bytearray", b_bytearray),
     "range": Builtin("range", b_range),
@@ -1305,7 +1350,10 @@ def exec_loop(ip, s, env, f):
     names = assigned_names([s.test] + s.body)
     for nm in sorted(names):
         if nm in env.vars:
-            env.vars[nm] = generalize(ip, env.vars[nm], spec.local_types.get(nm))
+            if nm in spec.gen_locals:
+                env.vars[nm] = spec.gen_locals[nm](ip, env.vars[nm])
+            else:
+                env.vars[nm] = generalize(ip, env.vars[nm], spec.local_types.get(nm))
     st.havoc(keys=spec.modifies)
     spec.after_havoc(ip, env)
     for name, t in spec.inv(ip, env):
